@@ -26,15 +26,16 @@ def Conn.closeTarget (x : Conn) (m : Option String) : Option String :=
   | none => x.closeName m
 
 /-- channel statements that only add rows or set fields (and the by-id delete of `release`) -/
-inductive GrowPrim : (Chan → Chan) → Prop
-  | insMailbox (r) : GrowPrim (fun d => d.insMailbox r)
-  | insMbSide (r) : GrowPrim (fun d => d.insMbSide r)
-  | touch (mb t) : GrowPrim (fun d => d.touch mb t)
-  | insMessage (r) : GrowPrim (fun d => d.insMessage r)
-  | insNameplate (a n m) : GrowPrim (fun d => d.insNameplate a n m)
-  | insNpSide (r) : GrowPrim (fun d => d.insNpSide r)
-  | unclaim (n sd) : GrowPrim (fun d => d.unclaim n sd)
-  | delNp (id) : GrowPrim (fun d => (d.delNpSidesOf id).delNameplate id)
+inductive GrowPrim (d0 : Chan) : (Chan → Chan) → Prop
+  /-- `_add_mailbox` inserts only after it found no row with this id -/
+  | insMailbox (r) (h : ∀ m ∈ d0.mailboxes, m.id ≠ r.id) : GrowPrim d0 (fun d => d.insMailbox r)
+  | insMbSide (r) : GrowPrim d0 (fun d => d.insMbSide r)
+  | touch (mb t) : GrowPrim d0 (fun d => d.touch mb t)
+  | insMessage (r) : GrowPrim d0 (fun d => d.insMessage r)
+  | insNameplate (a n m) : GrowPrim d0 (fun d => d.insNameplate a n m)
+  | insNpSide (r) : GrowPrim d0 (fun d => d.insNpSide r)
+  | unclaim (n sd) : GrowPrim d0 (fun d => d.unclaim n sd)
+  | delNp (id) : GrowPrim d0 (fun d => (d.delNpSidesOf id).delNameplate id)
 
 /-- the channel statements of the sweep -/
 inductive DelPrim : (Chan → Chan) → Prop
@@ -61,8 +62,10 @@ structure ClosedBase (T : Sys → Prop) : Prop where
   commit : ∀ s, T s → T s.commit
   ucommit : ∀ s, T s → T s.ucommit
 
-structure Closed (T : Sys → Prop) : Prop extends ClosedBase T where
-  grow : ∀ s f, GrowPrim f → T s → T (s.modDb f)
+structure ClosedG (T : Sys → Prop) : Prop extends ClosedBase T where
+  grow : ∀ s f, GrowPrim s.db f → T s → T (s.modDb f)
+
+structure Closed (T : Sys → Prop) : Prop extends ClosedG T where
   flag : ∀ s c f, Harmless f → T s → T (s.updConn c f)
 
 structure ClosedC (T : Sys → Prop) : Prop extends Closed T where
@@ -149,7 +152,7 @@ end base
 theorem mailboxClose_track {T T' : Sys → Prop} (hT : ClosedBase T) (hT' : ClosedBase T')
     (hconns' : ∀ s cs, T' s → T' { s with conns := cs }) (hsub : ∀ s, T s → T' s)
     {app mb side : String} {mood : Option String} {t : Time}
-    (hcs : ∀ s1, T s1 → T (s1.modDb (·.closeSide mb side mood)))
+    (hcs : ∀ s1, T s1 → s1.db.HasMb app mb → T (s1.modDb (·.closeSide mb side mood)))
     (hdel : ∀ s1, T' s1 → (s1.db.mbSidesOf mb).any (·.opened) = false →
       T' (s1.modDb (fun d => d.closeDeletes app mb)))
     {s : Sys} (h : T s) : T' (s.mailboxClose app mb side mood t).1 := by
@@ -158,8 +161,9 @@ theorem mailboxClose_track {T T' : Sys → Prop} (hT : ClosedBase T) (hT' : Clos
   · exact hsub _ h
   · split
     · exact hsub _ h
-    · rename_i row _ _ _ _
-      have h1 : T ((s.modDb (·.closeSide mb side mood)).commit) := hT.commit _ (hcs _ h)
+    · rename_i row hrow _ _ _
+      have h1 : T ((s.modDb (·.closeSide mb side mood)).commit) :=
+        hT.commit _ (hcs _ h (Chan.findMailbox_isSome.1 (by simp [hrow])))
       dsimp only
       split
       · exact hsub _ h1
@@ -190,25 +194,27 @@ theorem mailboxClose_track {T T' : Sys → Prop} (hT : ClosedBase T) (hT' : Clos
 
 /-! ### grow -/
 section grow
-variable {T : Sys → Prop} (hT : Closed T)
+variable {T : Sys → Prop} (hT : ClosedG T)
 include hT
 
-theorem Closed.mailboxOpen {s : Sys} (h : T s) (mb side t) : T (s.mailboxOpen mb side t) := by
+theorem ClosedG.mailboxOpen {s : Sys} (h : T s) (mb side t) : T (s.mailboxOpen mb side t) := by
   unfold Sys.mailboxOpen
   split
   · exact hT.commit _ (hT.grow _ _ (.touch mb t) (hT.grow _ _ (.insMbSide _) h))
   · exact hT.commit _ (hT.grow _ _ (.touch mb t) h)
 
-theorem Closed.addMailbox {s s1 : Sys} (h : T s) {app mb forNp t}
+theorem ClosedG.addMailbox {s s1 : Sys} (h : T s) {app mb forNp t}
     (e : s.addMailbox app mb forNp t = some s1) : T s1 := by
   unfold Sys.addMailbox at e
   split at e
   · cases e; exact h
   · split at e
     · cases e
-    · cases e; exact hT.grow _ _ (.insMailbox _) h
+    · rename_i hnone
+      cases e
+      exact hT.grow _ _ (.insMailbox _ (Chan.findMailboxById_eq_none.1 hnone)) h
 
-theorem Closed.openMailbox {s : Sys} (h : T s) (app mb side t) : T (s.openMailbox app mb side t).1 := by
+theorem ClosedG.openMailbox {s : Sys} (h : T s) (app mb side t) : T (s.openMailbox app mb side t).1 := by
   unfold Sys.openMailbox
   split
   · exact h
@@ -217,12 +223,12 @@ theorem Closed.openMailbox {s : Sys} (h : T s) (app mb side t) : T (s.openMailbo
     dsimp only
     split <;> exact this
 
-theorem Closed.addMessage {s : Sys} (h : T s) (app mb side ph bd t id) :
+theorem ClosedG.addMessage {s : Sys} (h : T s) (app mb side ph bd t id) :
     T (s.addMessage app mb side ph bd t id) := by
   unfold Sys.addMessage
   exact hT.commit _ (hT.grow _ _ (.touch mb t) (hT.grow _ _ (.insMessage _) h))
 
-theorem Closed.claimCont {s : Sys} (h : T s) (app npid mb side t) :
+theorem ClosedG.claimCont {s : Sys} (h : T s) (app npid mb side t) :
     T (claimCont s app npid mb side t).1 := by
   unfold Sys.claimCont
   have h3 := hT.openMailbox (hT.commit _ h) app mb side t
@@ -232,7 +238,7 @@ theorem Closed.claimCont {s : Sys} (h : T s) (app npid mb side t) :
   · exact h3
   · split <;> exact h3
 
-theorem Closed.claimTail {s : Sys} (h : T s) (app npid mb side t) :
+theorem ClosedG.claimTail {s : Sys} (h : T s) (app npid mb side t) :
     T (s.claimTail app npid mb side t).1 := by
   rw [claimTail_eq]
   split
@@ -241,7 +247,7 @@ theorem Closed.claimTail {s : Sys} (h : T s) (app npid mb side t) :
     · exact hT.claimCont h _ _ _ _ _
     · exact h
 
-theorem Closed.claimNameplate {s : Sys} (h : T s) (app name side t fresh) :
+theorem ClosedG.claimNameplate {s : Sys} (h : T s) (app name side t fresh) :
     T (s.claimNameplate app name side t fresh).1 := by
   unfold Sys.claimNameplate
   split
@@ -251,7 +257,7 @@ theorem Closed.claimNameplate {s : Sys} (h : T s) (app name side t fresh) :
       exact hT.claimTail (hT.grow _ _ (.insNameplate _ _ _) (hT.addMailbox h h2)) _ _ _ _ _
   · exact hT.claimTail h _ _ _ _ _
 
-theorem Closed.releaseNameplate {s : Sys} (h : T s) (app name side t) :
+theorem ClosedG.releaseNameplate {s : Sys} (h : T s) (app name side t) :
     T (s.releaseNameplate app name side t).1 := by
   unfold Sys.releaseNameplate
   split
@@ -273,6 +279,13 @@ theorem Closed.releaseNameplate {s : Sys} (h : T s) (app name side t) :
           · exact hT.commit _ (hT.ucommit _ h3)
         · exact hT.commit _ h2
 
+end grow
+
+/-! ### handlers -/
+section handlers
+variable {T : Sys → Prop} (hT : Closed T)
+include hT
+
 theorem Closed.handleAllocate {s : Sys} (h : T s) (x app side t pick draws fresh) :
     T (s.handleAllocate x app side t pick draws fresh) := by
   unfold Sys.handleAllocate
@@ -281,7 +294,7 @@ theorem Closed.handleAllocate {s : Sys} (h : T s) (x app side t pick draws fresh
   · split
     · exact hT.toClosedBase.internalErr h _ _
     · rename_i name _
-      have h1 := hT.claimNameplate h app name side t fresh
+      have h1 := hT.toClosedG.claimNameplate h app name side t fresh
       split
       all_goals
         rename_i s1 _ e
@@ -301,7 +314,7 @@ theorem Closed.handleClaim {s : Sys} (h : T s) (x app side t n fresh) :
     · exact hT.toClosedBase.sendError h _ _
     · rename_i name _
       dsimp only
-      have h1 := hT.claimNameplate (hT.flag _ x.id (fun y => { y with didClaim := true, nameplateId := some name })
+      have h1 := hT.toClosedG.claimNameplate (hT.flag _ x.id (fun y => { y with didClaim := true, nameplateId := some name })
         (fun y => ⟨rfl, rfl, rfl, rfl, rfl⟩) h) app name side t fresh
       split
       all_goals
@@ -320,7 +333,7 @@ theorem Closed.handleRelease {s : Sys} (h : T s) (x app side t n) :
        | (s1, true) => s1.send x.id .released
        | (s1, false) => s1.internalErr x.id "IndexError") := by
     intro name
-    have h1 := hT.releaseNameplate (hT.flag _ x.id (fun y => { y with didRelease := true })
+    have h1 := hT.toClosedG.releaseNameplate (hT.flag _ x.id (fun y => { y with didRelease := true })
       (fun y => ⟨rfl, rfl, rfl, rfl, rfl⟩) h) app name side t
     split
     all_goals
@@ -348,7 +361,7 @@ theorem Closed.handleAdd {s : Sys} (h : T s) (x app side t id ph bd) :
     · exact hT.toClosedBase.sendError h _ _
     · split
       · exact hT.toClosedBase.sendError h _ _
-      · exact hT.toClosedBase.broadcast (hT.addMessage h _ _ _ _ _ _ _) _ _ _
+      · exact hT.toClosedBase.broadcast (hT.toClosedG.addMessage h _ _ _ _ _ _ _) _ _ _
 
 /-- every command except `bind`, `open`, `close` (those change binding / handle / subscription) -/
 theorem Closed.onMessage {s : Sys} (h : T s) (c t id) {cmd : Cmd}
@@ -396,7 +409,7 @@ theorem Closed.onMessage {s : Sys} (h : T s) (c t id) {cmd : Cmd}
       · exact hT.handleAdd ha _ _ _ _ _ _ _
     | close m mood => exact absurd rfl (hc m mood)
 
-end grow
+end handlers
 
 /-! ### properties that do not look at connection records -/
 section growC
@@ -423,7 +436,7 @@ theorem ClosedC.handleOpen {s : Sys} (h : T s) (x app side t m) : T (s.handleOpe
     · exact hT.toClosedBase.sendError h _ _
     · rename_i mb
       dsimp only
-      have h1 := hT.toClosed.openMailbox (hT.updConn h x.id (fun y => { y with mailboxId := some mb })) app mb side t
+      have h1 := hT.toClosedG.openMailbox (hT.updConn h x.id (fun y => { y with mailboxId := some mb })) app mb side t
       split
       all_goals
         rename_i e
@@ -439,7 +452,8 @@ end growC
 theorem handleClose_track {T T' : Sys → Prop} (hT : ClosedC T) (hT' : ClosedBase T')
     (hconns' : ∀ s cs, T' s → T' { s with conns := cs }) (hsub : ∀ s, T s → T' s)
     (x : Conn) (app side : String) (t : Time) (m : Option String) (mood : Option String)
-    (hcs : ∀ tgt, x.closeTarget m = some tgt → ∀ s1, T s1 → T (s1.modDb (·.closeSide tgt side mood)))
+    (hcs : ∀ tgt, x.closeTarget m = some tgt → ∀ s1, T s1 → s1.db.HasMb app tgt →
+      T (s1.modDb (·.closeSide tgt side mood)))
     (hdel : ∀ tgt, x.closeTarget m = some tgt → ∀ s1, T' s1 → (s1.db.mbSidesOf tgt).any (·.opened) = false →
       T' (s1.modDb (fun d => d.closeDeletes app tgt)))
     {s : Sys} (h : T s) : T' (s.handleClose x app side t m mood) := by
@@ -487,7 +501,7 @@ theorem handleClose_track {T T' : Sys → Prop} (hT : ClosedC T) (hT' : ClosedBa
     | some hd => exact tail s .ok hd h (fun _ => by simp [Conn.closeTarget, hx])
     | none =>
       dsimp only
-      have h1 := hT.toClosed.openMailbox h app mb side t
+      have h1 := hT.toClosedG.openMailbox h app mb side t
       cases e : s.openMailbox app mb side t with
       | mk s1 r =>
         rw [e] at h1
@@ -509,7 +523,8 @@ theorem onMessage_track {T T' : Sys → Prop} (hT : ClosedC T) (hT' : ClosedBase
     (hconns' : ∀ s cs, T' s → T' { s with conns := cs }) (hsub : ∀ s, T s → T' s)
     {s : Sys} (c : Nat) (t : Time) (id : Val) (cmd : Cmd)
     (hcs : ∀ x m mood app tgt, s.findConn c = some x → cmd = .close m mood → x.app = some app →
-      x.closeTarget m = some tgt → ∀ s1, T s1 → T (s1.modDb (·.closeSide tgt (x.side.getD "") mood)))
+      x.closeTarget m = some tgt → ∀ s1, T s1 → s1.db.HasMb app tgt →
+      T (s1.modDb (·.closeSide tgt (x.side.getD "") mood)))
     (hdel : ∀ x m mood app tgt, s.findConn c = some x → cmd = .close m mood → x.app = some app →
       x.closeTarget m = some tgt → ∀ s1, T' s1 → (s1.db.mbSidesOf tgt).any (·.opened) = false →
       T' (s1.modDb (fun d => d.closeDeletes app tgt)))
@@ -675,9 +690,9 @@ theorem Track.modDb {R : Chan → Prop} {s : Sys} (h : Track R s) (f : Chan → 
 theorem Track.anyConns {R : Chan → Prop} {s : Sys} (h : Track R s) (cs : List Conn) :
     Track R { s with conns := cs } := ⟨h.db, h.disk, h.snaps⟩
 
-theorem Track.closedC {R : Chan → Prop} (hR : ∀ f, GrowPrim f → ∀ d, R d → R (f d)) : ClosedC (Track R) where
+theorem Track.closedC {R : Chan → Prop} (hR : ∀ d f, GrowPrim d f → R d → R (f d)) : ClosedC (Track R) where
   toClosedBase := Track.closedBase R
-  grow := fun _ f hf h => h.modDb f (hR f hf _ h.db)
+  grow := fun _ f hf h => h.modDb f (hR _ f hf h.db)
   flag := fun _ _ _ _ h => ⟨h.db, h.disk, h.snaps⟩
   anyConns := fun _ cs h => h.anyConns cs
 
